@@ -421,7 +421,18 @@ impl Harness {
                     }
                     expected.push(Elem { addr: m[0].0, len: *len as u32, write: *dir == Dir::DeviceToDriver });
                 }
-                let uses_table = self.c.indirect && n > 1 && !fallback_direct;
+                // Whether this chain goes through an indirect table is the queue's choice (a queue
+                // with the feature may still publish a chain directly, given the descriptors); the
+                // model follows what the device sees and judges what follows from it.
+                let observed_table = with(|w| w.dq[q as usize].recent.iter().rev().find(|c| c.avail_pos == idx_before).map(|c| c.indirect.is_some()));
+                let uses_table = observed_table.unwrap_or(self.c.indirect && n > 1 && !fallback_direct);
+                if uses_table && !self.c.indirect {
+                    violation("indirect-usage", site, "an indirect table was used although indirect descriptors are not enabled for the queue".into());
+                }
+                if !uses_table && self.held + n > self.c.size {
+                    violation("add-accepted-wrongly", site, format!("direct chain of {n} descriptors published although only {} of {} descriptors are free", self.free(), self.c.size));
+                    return None;
+                }
                 let mut table = None;
                 if ok {
                     let extra: Vec<_> = shares.iter().filter(|s| !bufs.iter().any(|b| b.0 == s.1)).collect();
@@ -464,9 +475,7 @@ impl Harness {
                                 format!("device sees {:x?}, caller supplied (as device addresses) {:x?}", ch.elems, expected),
                             );
                         }
-                        if uses_table != ch.indirect.is_some() {
-                            violation("indirect-usage", site, format!("indirect enabled={} buffers={n}: chain uses table: {}", self.c.indirect, ch.indirect.is_some()));
-                        }
+
                         if let (Some((ta, tl)), Some((sa, sl))) = (ch.indirect, table) {
                             if ta != sa || tl as usize != sl {
                                 violation("indirect-table-address", site, format!("table descriptor {ta:#x}+{tl} but table was shared as {sa:#x}+{sl}"));
@@ -487,7 +496,8 @@ impl Harness {
                         }
                     }
                 }
-                let cost = if fallback_direct { n } else { self.cost(n) };
+                let _ = fallback_direct;
+                let cost = if uses_table { 1 } else { n };
                 self.held += cost;
                 let in_hash = {
                     let mut all = Vec::new();
@@ -1166,12 +1176,10 @@ pub fn notify_sweep(t: crate::runner::Tier) -> crate::runner::ExtraResult {
                         (reg.vaddr + (a - reg.paddr) as usize) as *mut u16
                     });
                     let buf = [0u8; 1];
-                    let start = th * (65536 / nthreads);
-                    let end = start + 65536 / nthreads;
                     let mut avail: u32 = 0;
                     let mut local = 0u64;
-                    let mut step = |q: &mut Box<dyn QApi>, n: u32, avail: &mut u32| {
-                        // n submissions, then the device serves and the driver consumes them
+                    let step = |q: &mut Box<dyn QApi>, n: u32, avail: &mut u32| {
+                        // n submissions
                         let mut toks = Vec::new();
                         for _ in 0..n {
                             // SAFETY: `buf` outlives the queue
@@ -1181,6 +1189,7 @@ pub fn notify_sweep(t: crate::runner::Tier) -> crate::runner::ExtraResult {
                         toks
                     };
                     let finish = |q: &mut Box<dyn QApi>, toks: Vec<u16>| {
+                        // the device serves and the driver consumes them
                         with(|w| {
                             w.dq[0].notified = true;
                             w.drain_device();
@@ -1192,21 +1201,36 @@ pub fn notify_sweep(t: crate::runner::Tier) -> crate::runner::ExtraResult {
                         }
                         with(|w| w.dq[0].used_fifo.clear());
                     };
-                    // walk to the start of this thread's slice
-                    while avail < start {
-                        let toks = step(&mut q, 1, &mut avail);
-                        finish(&mut q, toks);
-                    }
-                    while avail < end && bad.lock().unwrap().is_empty() {
-                        let batch = if full { 1 } else { [1u32, 2, 4][(avail % 3) as usize] };
-                        let old = avail as u16;
-                        let toks = step(&mut q, batch.min(end - avail), &mut avail);
-                        let new = avail as u16;
-                        let mut check = |event: u16, local: &mut u64| {
+                    // "...among the entries made available since the driver last checked": the
+                    // driver is asked exactly once per batch, so that an implementation which
+                    // remembers what it has already reported is judged correctly too. One
+                    // candidate event value per walk through all 65536 index values; the walks are
+                    // distributed over the threads.
+                    const QUICK_CANDIDATES: u32 = 17 + 17 + 8;
+                    let n_cand: u32 = if full { 65536 } else { QUICK_CANDIDATES };
+                    let mut cand = th;
+                    while cand < n_cand && bad.lock().unwrap().is_empty() {
+                        let walk_end = avail + 65536;
+                        while avail < walk_end {
+                            let batch = if full { 1 } else { [1u32, 2, 4][((avail & 0xffff) % 3) as usize] }.min(walk_end - avail);
+                            let old = avail as u16;
+                            let new = (avail + batch) as u16;
+                            let event: u16 = if full {
+                                cand as u16
+                            } else if cand < 17 {
+                                old.wrapping_add((cand as i32 - 8) as u16)
+                            } else if cand < 34 {
+                                new.wrapping_add((cand as i32 - 17 - 8) as u16)
+                            } else {
+                                [0u16, 1, 0x7fff, 0x8000, 0xfffe, 0xffff, old.wrapping_add(0x8000), new.wrapping_add(0x7fff)][(cand - 34) as usize]
+                            };
+                            // the device publishes the index at which it wants to be notified
+                            // before the driver makes the batch available
                             // SAFETY: points into live DMA memory of this thread's queue
                             unsafe { ev_ptr.write_volatile(event) };
+                            let toks = step(&mut q, batch, &mut avail);
                             let got = q.should_notify();
-                            *local += 1;
+                            local += 1;
                             if vring_need_event(event, new, old) && !got {
                                 let mut b = bad.lock().unwrap();
                                 if b.len() < 3 {
@@ -1215,25 +1239,14 @@ pub fn notify_sweep(t: crate::runner::Tier) -> crate::runner::ExtraResult {
                                         format!("available index {old} -> {new} (batch {}), device asked for event index {event}: the specification requires a notification, should_notify() is false", new.wrapping_sub(old)),
                                     ));
                                 }
+                                break;
                             }
-                        };
-                        if full {
-                            for e in 0..=65535u16 {
-                                check(e, &mut local);
-                            }
-                        } else {
-                            for d in -8i32..=8 {
-                                check(old.wrapping_add(d as u16), &mut local);
-                                check(new.wrapping_add(d as u16), &mut local);
-                            }
-                            for e in [0u16, 1, 0x7fff, 0x8000, 0xfffe, 0xffff, old.wrapping_add(0x8000), new.wrapping_add(0x7fff)] {
-                                check(e, &mut local);
-                            }
+                            finish(&mut q, toks);
                         }
-                        // SAFETY: as above
-                        unsafe { ev_ptr.write_volatile(0) };
-                        finish(&mut q, toks);
+                        cand += nthreads;
                     }
+                    // SAFETY: as above
+                    unsafe { ev_ptr.write_volatile(0) };
                     evals.fetch_add(local, Ordering::Relaxed);
                     drop(tr);
                     drop(q);
@@ -1247,9 +1260,9 @@ pub fn notify_sweep(t: crate::runner::Tier) -> crate::runner::ExtraResult {
         evaluations: evals.load(Ordering::Relaxed),
         exhaustive: full,
         description: if full {
-            "should_notify() vs vring_need_event for the complete 2^16 x 2^16 (available index, device event index) square at batch size 1, on a real event-idx VirtQueue walked through all index values".into()
+            "should_notify() asked once per submission vs vring_need_event for the complete 2^16 x 2^16 (available index, device event index) square at batch size 1, on a real event-idx VirtQueue walked through all index values once per event value".into()
         } else {
-            "should_notify() vs vring_need_event for all 65536 available-index values, batch sizes 1/2/SIZE, event indices in a band of +-8 around both ends of the batch plus extremes".into()
+            "should_notify() asked once per batch vs vring_need_event, for all 65536 available-index values, batch sizes 1/2/4, event indices in a band of +-8 around both ends of the batch plus extremes (42 walks through the index space)".into()
         },
         violations,
     }
